@@ -373,7 +373,7 @@ pub fn run(ctx: &Ctx, rep: &mut Report) {
     rep.prop(
         "corrupted-containers",
         "proptest: base = small valid volume | intermediate chunk (prefix + bzip2(message stream)) | up to 300 random bytes, then 0..4 operators {truncate, size-prefix corruption (0, 1, remainder-1/+0/+1, i32::MAX, i32::MIN, -1, size+-1), bit flip / byte set inside a compressed body, bit flip anywhere, append}; non-trivial = shorter than 24 bytes, or a corrupted size prefix / body after >= 1 record",
-        ctx.tier.pick(60_000, 1_500_000),
+        ctx.tier.pick(150_000, 1_500_000),
         case_strategy,
         |c| {
             let b = apply(c);
@@ -393,7 +393,7 @@ pub fn run(ctx: &Ctx, rep: &mut Report) {
     rep.prop(
         "random-bytes",
         "proptest: uniformly random bytes, lengths 0..=8192 (short lengths boosted), optionally prefixed with 'AR2' or given 'BZ' at offset 4; non-trivial = shorter than 24 bytes or magic-prefixed",
-        ctx.tier.pick(50_000, 1_200_000),
+        ctx.tier.pick(150_000, 1_200_000),
         || {
             let len = prop_oneof![5 => 0usize..=64, 3 => 65usize..=2500, 1 => 2500usize..=8192];
             (len.prop_flat_map(|n| vec(any::<u8>(), n)), 0u8..4).prop_map(|(mut bytes, magic)| {
